@@ -82,6 +82,8 @@ def run_alloc(c):
     except Exception as e:
         raise RuntimeError("generator produced a design that is rejected: %s: %s\n%s" % (type(e).__name__, e, c))
     ref = c["refine"]
+    if not die.floorplanning_rectangles()[0]:
+        return dict(nt=False, cls=["no-refinable-cell"])
     try:
         if ref and ref[0] == "split":
             die.split_refinable_regions(float(ref[1]), int(ref[2]))
@@ -174,6 +176,8 @@ def run_alloc(c):
         cls.append("with-fixed")
     if ref:
         cls.append("refined-" + ref[0])
+    if Fr(unit) <= Fr(1, 1000):
+        cls.append("tiny-die")
     if inc0:
         cls.append("include-zero")
     if any(not m["rects"] for m in c["modules"]):
@@ -198,7 +202,8 @@ def fl(e):
 @st.composite
 def case_s(draw):
     empty = draw(_i(0, 3)) == 0
-    dc = draw(D.die_case(max_regions=0 if empty else 5, allow_fixed=not empty, min_side=2))
+    dc = draw(D.die_case(max_regions=0 if empty else 5, allow_fixed=not empty, min_side=2,
+                         units=D.UNITS_EXACT + D.UNITS_DEC + ["0.0001", "0.0001", "0.001", "0.0025", "0.00001", "1000"]))
     W, H = dc["W"], dc["H"]
     ref = None
     k = draw(_i(0, 3))
@@ -234,4 +239,4 @@ def case_s(draw):
 def subchecks():
     return [Sub("designs", run_alloc, strategy=case_s(), n_quick=5000, n_thorough=120000,
                 required=("with-fixed", "refined-split", "refined-grid", "include-zero", "square-from-centre", "hard-module",
-                          "sticks-out", "overlaps-fixed-cell", "covers-a-cell-completely"))]
+                          "sticks-out", "overlaps-fixed-cell", "covers-a-cell-completely", "tiny-die"))]
